@@ -420,7 +420,8 @@ def rule_note_pairing(ctx):
         for n in own_nodes(f.node):
             if isinstance(n, ast.If):
                 t = norm(n.test)
-                if t in (f"{on_v} and {msgv}.velocity > 0", f"{msgv}.velocity > 0 and {on_v}"):
+                # (comparisons are read in canonical orientation: `a > b` is `b < a`, see core/program.py)
+                if t in (f"{on_v} and 0 < {msgv}.velocity", f"0 < {msgv}.velocity and {on_v}"):
                     start = n
                     if n.orelse and isinstance(n.orelse[0], ast.If):
                         end = n.orelse[0]
